@@ -31,6 +31,8 @@ pub struct Scn {
     pub defs_cache: Option<Value>,
     pub live_rooms: HashMap<(String, Uid), std::sync::Arc<vh::database::room::Room>>,
     pub conns: HashMap<String, ServeConn>,
+    /// room-modified events a peer must still deliver (one per accepted room creation or update), waited for by `serve`
+    pub pending_room_events: HashMap<String, usize>,
 }
 
 impl World {
@@ -522,14 +524,26 @@ pub async fn serve(world: &mut World, scn: &mut Scn, step: &Value) -> Result<Val
     }
     let mut changed: Vec<std::sync::Arc<vh::database::room::Room>> = Vec::new();
     {
+        // every accepted room creation or update of the server is announced: wait for those announcements (they are asynchronous)
+        let expected = scn.pending_room_events.remove(&sname).unwrap_or(0);
         let rx = world.rx.get_mut(&sname).unwrap();
-        loop {
-            match rx.try_recv() {
-                Ok(discret::Event::RoomModified(r)) => changed.push(r),
-                Ok(_) => {}
-                Err(tokio::sync::broadcast::error::TryRecvError::Lagged(_)) => {}
-                Err(_) => break,
+        // (an update that changes nothing is not announced: give up after a quiet period)
+        let mut quiet = 0;
+        while quiet < 100 {
+            let before = changed.len();
+            loop {
+                match rx.try_recv() {
+                    Ok(discret::Event::RoomModified(r)) => changed.push(r),
+                    Ok(_) => {}
+                    Err(tokio::sync::broadcast::error::TryRecvError::Lagged(_)) => {}
+                    Err(_) => break,
+                }
             }
+            if changed.len() >= expected {
+                break;
+            }
+            quiet = if changed.len() > before { 0 } else { quiet + 1 };
+            tokio::time::sleep(std::time::Duration::from_millis(5)).await;
         }
     }
     let server = &world.peers[&sname];
@@ -1602,6 +1616,9 @@ pub async fn run_step(world: &mut World, scn: &mut Scn, step: &Value, out: &mut 
         }
         other => panic!("unknown op {other}"),
     }
+    if res.is_ok() && (op == "room" || op == "roomdef" || op == "roomupd") {
+        *scn.pending_room_events.entry(s(step, "p")).or_insert(0) += 1;
+    }
     match &res {
         Ok(_) => ev["res"] = json!("ok"),
         Err(e) => {
@@ -1641,7 +1658,7 @@ pub async fn run_step(world: &mut World, scn: &mut Scn, step: &Value, out: &mut 
 pub async fn run_scenario(world: &mut World, sc: &Value, out: &mut TraceWriter) {
     let peers: Vec<String> = arr(sc, "peers").iter().map(|x| x.as_str().unwrap().to_string()).collect();
     let mut scn = Scn { names: Names::default(), hash_ids: HashMap::new(), terms: HashMap::new(), peers: peers.clone(), events: sc.get("events").and_then(|e| e.as_bool()).unwrap_or(false),
-        defs: sc.get("defs").and_then(|e| e.as_bool()).unwrap_or(false), auth_ids: HashMap::new(), user_key: HashMap::new(), defs_cache: None, live_rooms: HashMap::new(), conns: HashMap::new() };
+        defs: sc.get("defs").and_then(|e| e.as_bool()).unwrap_or(false), auth_ids: HashMap::new(), user_key: HashMap::new(), defs_cache: None, live_rooms: HashMap::new(), conns: HashMap::new(), pending_room_events: HashMap::new() };
     for p in &peers {
         let user = sc["users"][p].as_str().unwrap_or("u1").to_string();
         world.ensure_peer(p, &user).await;
